@@ -14,6 +14,8 @@ def main():
     name, patch, notes, checks = sys.argv[1], sys.argv[2], sys.argv[3], sys.argv[4].split(",")
     if sh("git -C /repo status --porcelain --untracked-files=no")[1].strip():
         print("/repo dirty"); return 2
+    if sh("git status --porcelain --untracked-files=no lean tools/scrub_expected.json", cwd=V)[1].strip():
+        print("uncommitted changes under lean/ (the restore after the run would destroy them): commit first"); return 2
     rc, out = sh("git -C /repo apply %s" % patch)
     if rc:
         print("apply failed", out); return 2
